@@ -51,9 +51,13 @@ func (a *Act) canInline(fn *ssa.Function, stack []*ssa.Function) bool {
 			}
 		}
 		for _, ins := range b.Instrs {
-			switch ins.(type) {
-			case *ssa.Go, *ssa.Select, *ssa.Send, *ssa.Defer:
+			switch x := ins.(type) {
+			case *ssa.Go, *ssa.Select, *ssa.Send:
 				return false
+			case *ssa.Defer:
+				if !isMutexDefer(x) {
+					return false
+				}
 			}
 		}
 	}
@@ -144,15 +148,45 @@ func (a *Act) doCall(st *State, com *ssa.CallCommon, pos tokenPos, site ssa.Valu
 func (a *Act) callFn(st *State, callee *ssa.Function, args []Val, env []Val, pos tokenPos, sig *types.Signature) Val {
 	// static calls named in the callback clause are recorded in the ghost trace as well (and then executed)
 	if fc := a.top.fc; fc != nil && fc.CallbackRank != nil && !a.spec && a.depth == 0 {
-		if _, traced := fc.CallbackRank[callee.Name()]; traced {
+		cname := callee.Name()
+		if o := callee.Origin(); o != nil {
+			cname = o.Name()
+		}
+		if _, traced := fc.CallbackRank[cname]; traced {
 			var targs []Val
 			targs = append(targs, args...)
 			if callee.Signature.Recv() != nil && len(targs) > 0 {
 				targs = targs[1:] // arguments without the receiver, like for interface calls
 			}
-			a.traceEvent(st, fc, callee.Name(), targs, pos, Val{}, types.NewSignatureType(nil, nil, nil, nil, nil, false))
+			at := st.heap(traceLen, "Int")
+			a.traceEvent(st, fc, cname, targs, pos, Val{}, types.NewSignatureType(nil, nil, nil, nil, nil, false))
+			res := a.callFn1(st, callee, args, env, pos, sig)
+			a.traceResult(st, cname, at, res)
+			return res
 		}
 	}
+	return a.callFn1(st, callee, args, env, pos, sig)
+}
+
+// traceResult records the (first) result of a traced static call: tres("Name", i).
+func (a *Act) traceResult(st *State, name string, at Term, res Val) {
+	r0 := res
+	if res.Tuple != nil && len(res.Tuple) > 0 {
+		r0 = res.Tuple[0]
+	}
+	if r0.Loc != nil || r0.Tuple != nil || r0.T == "" || r0.Typ == nil {
+		return
+	}
+	if a.u.traceArgType == nil {
+		a.u.traceArgType = map[string]types.Type{}
+	}
+	a.u.traceArgType[name+"_res"] = r0.Typ
+	h := "T_res_" + name
+	hs := "(Array Int " + a.u.D.SortOf(r0.Typ) + ")"
+	st.setHeap(h, hs, store(st.heap(h, hs), at, r0.T))
+}
+
+func (a *Act) callFn1(st *State, callee *ssa.Function, args []Val, env []Val, pos tokenPos, sig *types.Signature) Val {
 	key := intrinsicKey(callee)
 	if in, ok := intrinsics[key]; ok {
 		a.u.Trusted["intrinsic "+key] = true
@@ -412,6 +446,7 @@ func (a *Act) appendOp(st *State, com *ssa.CallCommon, pos tokenPos) Term {
 		u.Fact(implies(inplace, fmt.Sprintf("(forall ((r Ref)) (! (=> (not (= (rid r) (rid (sarr %s)))) (= (select %s r) (select %s r))) :pattern ((select %s r))))", s, nh, old, nh)))
 		u.Fact(implies(inplace, fmt.Sprintf("(forall ((k Int)) (! (=> (not (and (<= (+ (soff %s) (slen %s)) k) (< k (+ (soff %s) (slen %s) %s)))) (= (select %s (elem (sarr %s) k)) (select %s (elem (sarr %s) k)))) :pattern ((select %s (elem (sarr %s) k)))))",
 			s, s, s, s, n, nh, s, old, s, nh, s)))
+		u.Fact(implies(inplace, fmt.Sprintf("(forall ((r Ref)) (! (=> (and (= (rid r) (rid (sarr %s))) (not (and ((_ is pelem) (rpath r)) (= (pe_rest (rpath r)) (rpath (sarr %s)))))) (= (select %s r) (select %s r))) :pattern ((select %s r))))", s, s, nh, old, nh)))
 		u.Fact(implies(not(inplace), fmt.Sprintf("(forall ((r Ref)) (! (=> (not (= (rid r) (rid %s))) (= (select %s r) (select %s r))) :pattern ((select %s r))))", nr, nh, old, nh)))
 		st.setHeap(lh.name, lh.sort, nh)
 	}
@@ -658,6 +693,7 @@ func (a *Act) traceEvent(st *State, fc *FuncContract, name string, args []Val, p
 		hs := "(Array Int " + a.u.D.SortOf(av.Typ) + ")"
 		st.setHeap(h, hs, store(st.heap(h, hs), ln, av.T))
 	}
+	a.traceResult(st, name, ln, res)
 	// did the callback report an error? (last result of interface type)
 	failed := Term("false")
 	if n := sig.Results().Len(); n > 0 {
